@@ -72,6 +72,8 @@ func VC05Atomic() {
 	for lv := zapcore.DebugLevel; lv <= zapcore.FatalLevel; lv++ {
 		vrt.Assert("reported-level-consistent", (lv >= rep) == (lv >= cur))
 	}
+	vrt.Observe("lines", len(sink.lines))
+	vrt.Observe("level", int8(rep))
 	vrt.Assert("levelof-agrees", zapcore.LevelOf(log.Core()) == rep)
 	vrt.Cover("done")
 }
@@ -101,6 +103,7 @@ func VC05IncreaseOption() {
 	} else {
 		vrt.Assert("invalid-increase-reported", len(errOut.lines) == 1)
 	}
+	vrt.Observe("delivered", len(rec.st.writes))
 	vrt.Assert("only-narrows", (len(rec.st.writes) == 1) == want)
 	vrt.Assert("enabled-consistent", log.Core().Enabled(l) == want)
 }
